@@ -231,6 +231,47 @@ clock_t clock(void) {
   return (clock_t)(now() % 100000) * 1000;
 }
 
+// identity of the user / machine / terminal, and kernel randomness: seeded per environment (ENVSIM_IDS="uid:tty:rand")
+static long ids_field(int k) {
+  const char *s = getenv("ENVSIM_IDS");
+  if (state != 1 || !s) return -1;
+  for (; k > 0 && s; k--) { s = strchr(s, ':'); if (s) s++; }
+  return s ? atol(s) : -1;
+}
+uid_t getuid(void) {
+  static uid_t (*real)(void);
+  if (!real) real = dlsym(RTLD_NEXT, "getuid");
+  long v = ids_field(0);
+  return v >= 0 ? (uid_t)v : real();
+}
+uid_t geteuid(void) {
+  static uid_t (*real)(void);
+  if (!real) real = dlsym(RTLD_NEXT, "geteuid");
+  long v = ids_field(0);
+  return v >= 0 ? (uid_t)v : real();
+}
+int isatty(int fd) {
+  static int (*real)(int);
+  if (!real) real = dlsym(RTLD_NEXT, "isatty");
+  long v = ids_field(1);
+  if (v >= 0) { if (!v) errno = ENOTTY; return (int)v; }
+  return real(fd);
+}
+int gethostname(char *name, size_t len) {
+  static int (*real)(char *, size_t);
+  if (!real) real = dlsym(RTLD_NEXT, "gethostname");
+  long v = ids_field(2);
+  if (v >= 0) { snprintf(name, len, "host%ld", v % 1000); return 0; }
+  return real(name, len);
+}
+ssize_t getrandom(void *buf, size_t n, unsigned flags) {
+  static ssize_t (*real)(void *, size_t, unsigned);
+  if (!real) real = dlsym(RTLD_NEXT, "getrandom");
+  long v = ids_field(2);
+  if (v >= 0) { memset(buf, (int)(v & 0xff), n); return (ssize_t)n; }
+  return real(buf, n, flags);
+}
+
 int mkstemp(char *tmpl) {
   static int (*real)(char *);
   if (!real) real = dlsym(RTLD_NEXT, "mkstemp");
